@@ -155,15 +155,29 @@ def load_known():
         return []
 
 
-def finish(ck, t0, facts_info, cmd, level_text=""):
-    """Write evidence, print verdict lines, return exit code."""
+def kkey(o):
+    # the same construct analysed under another build configuration is the same finding
+    k = o.key
+    for cfgname in ("release/", "dev-all/"):
+        if k.startswith(cfgname):
+            k = k[len(cfgname):]
+    return "%s|%s" % (o.rule, k)
+
+
+def split_known(ck):
+    """-> (failed obligations not listed, failed obligations listed as known findings, {key: entry})"""
     known = [e for e in load_known() if e.get("status") == "known" and e.get("property") == ck.pid]
     known_keys = {e["key"]: e for e in known}
     failed = ck.failed()
-    unlisted = [o for o in failed if o.full_key() not in known_keys]
-    listed = [o for o in failed if o.full_key() in known_keys]
+    return [o for o in failed if kkey(o) not in known_keys], [o for o in failed if kkey(o) in known_keys], known_keys
+
+
+def finish(ck, t0, facts_info, cmd, level_text=""):
+    """Write evidence, print verdict lines, return exit code."""
+    unlisted, listed, known_keys = split_known(ck)
+    failed = ck.failed()
     for o in listed:
-        print("KNOWN-FINDING: property=%s %s %s: %s" % (ck.pid, o.rule, o.key, known_keys[o.full_key()].get("what", o.reason)))
+        print("KNOWN-FINDING: property=%s %s %s: %s" % (ck.pid, o.rule, o.key, known_keys[kkey(o)].get("what", o.reason)))
     n_ok = sum(1 for o in ck.obs if o.status == "ok")
     by_rule = {}
     for o in ck.obs:
@@ -196,6 +210,7 @@ def finish(ck, t0, facts_info, cmd, level_text=""):
         "exhaustive": False,
         "failed": [o.as_json() for o in failed][:50],
         "known_findings_matched": [o.full_key() for o in listed],
+        "open_obligations_listed_as_known_findings": len(listed),
     }
     coverage.update(ck.extra)
     ev = {
